@@ -1,47 +1,50 @@
 import Aiortc.Lemmas.C05.V2Chan
-/-! # V2 (C05c): the data plane (DCEP, DATA, FORWARD-TSN, SACK) under the weaker invariant
-
-The slack `n` of `WF U e` is consumed by `_receive_data_chunk` (the window shrinks by the payload) and given back by
-the delivery of a message (the window grows by its length *before* `_data_channel_receive` may register a channel
-for a DATA_CHANNEL_OPEN of ≥ 12 bytes). -/
+/-! # V2 (C05c): the data plane (DCEP, DATA, FORWARD-TSN, SACK) under the weaker invariant, with application handlers -/
 namespace Aiortc.Sctp.V2
 open Aiortc.Gen Aiortc.Sctp.Wire
 set_option linter.unusedSimpArgs false
-variable {U : List Nat}
+variable {U : List Nat} {B : Nat}
+
+/-- A state change that keeps `WF` for every `U` and does not touch the armed handlers keeps `WFx`. -/
+theorem WFx.map {e e' : Ep} (h : WFx B e) (f : ∀ U, WF U e → WF U e') (hr : e'.reactions = e.reactions) :
+    WFx B e' := by
+  obtain ⟨U, hb, hw⟩ := h
+  exact ⟨U, by rw [hr]; exact hb, f U hw⟩
 
 theorem ChansOk.delDc {chans dcs q rcq} (h : ChansOk U chans dcs q rcq) (sid : Nat) :
     ChansOk U chans (dictDel dcs sid) q rcq := by
-  refine ⟨?_, ?_, h.qIdx, h.qPR, h.qPpid, h.sid, h.rcq⟩
+  refine ⟨?_, ?_, h.qIdx, h.qPR, h.qPpid, h.sid, h.rcq, ?_, h.openId⟩
   · intro p hp; exact h.dcIdx p ((List.mem_filter.mp hp).1)
   · exact h.dcKeys.sublist ((List.filter_sublist).map _)
+  · intro p hp; exact h.dcLink p ((List.mem_filter.mp hp).1)
 
 theorem WF.delDc {e : Ep} (h : WF U e) (sid : Nat) : WF U { e with dataChannels := dictDel e.dataChannels sid } :=
   ⟨h.net, h.ch.delDc sid, h.tx, h.rx, h.rcReq, h.rcResp, h.sack, h.ids, h.cap, h.tm1, h.tm2, h.tasks, h.rcr⟩
 
-/-- `_data_channel_closed(stream_id)`. -/
-theorem wp_dcClosed {A} {sid : Nat} {Q : Unit → St → Prop} {e : Ep} {l : List Out} (h : WF U e)
-    (hq : ∀ cs l', WF U { e with dataChannels := dictDel e.dataChannels sid, chans := cs } →
-      cs.length = e.chans.length → Q () ({ e with dataChannels := dictDel e.dataChannels sid, chans := cs }, l')) :
+/-- `_data_channel_closed(stream_id)`: the stream is unregistered, then the `close` handler may run. -/
+theorem wp_dcClosed {A} {sid : Nat} {Q : Unit → St → Prop} {e : Ep} {l : List Out} (h : WFx B e)
+    (hq : ∀ e' l', WFx B e' → RFrame { e with dataChannels := dictDel e.dataChannels sid } e' → Q () (e', l')) :
     wp A (dcClosed sid) Q (e, l) := by
   unfold dcClosed
   simp only [wp_bind, wp_getE]
   split
   · rename_i hnone
     simp only [wp_pure]
-    have := hq e.chans l (by rw [dictDel_absent hnone]; exact h) rfl
-    rw [dictDel_absent hnone] at this
+    have := hq e l h (by rw [dictDel_absent hnone]; exact RFrame.refl _)
     exact this
   · rename_i i hsome
     simp only [wp_bind, wp_modE]
-    have hi := h.ch.dcIdx _ (dictGet_mem hsome)
-    refine wp_setReady (h.delDc sid) hi ?_
-    intro cs l' hw hlen
-    exact hq cs l' hw hlen
+    have hi : i < e.chans.length := by
+      obtain ⟨U, _, hw⟩ := h
+      exact hw.ch.dcIdx _ (dictGet_mem hsome)
+    refine wp_setReady (h.map (fun U hw => hw.delDc sid) rfl) hi (by intro h3; cases h3) ?_
+    intro e' l' hw hf
+    exact hq e' l' hw hf
 
 theorem ChansOk.open {chans dcs q rcq} (h : ChansOk U chans dcs q rcq) {sid : Nat} {c : Chan}
     (hnone : dictGet dcs sid = none) (hs : sid < 65536) (hc : c.id = some sid) (data : Bytes) :
     ChansOk U (chans ++ [c]) (dcs ++ [(sid, chans.length)]) (q ++ [(chans.length, WEBRTC_DCEP, data)]) rcq := by
-  refine ⟨?_, ?_, ?_, ?_, ?_, ?_, h.rcq⟩
+  refine ⟨?_, ?_, ?_, ?_, ?_, ?_, h.rcq, ?_, ?_⟩
   · intro p hp
     rcases List.mem_append.mp hp with hp | hp
     · have := h.dcIdx p hp; simp; omega
@@ -70,13 +73,22 @@ theorem ChansOk.open {chans dcs q rcq} (h : ChansOk U chans dcs q rcq) {sid : Na
     rcases List.mem_append.mp hd with hd | hd
     · exact h.sid d hd s hds
     · simp at hd; subst hd; rw [hc] at hds; cases hds; exact hs
+  · intro p hp
+    rcases List.mem_append.mp hp with hp | hp
+    · obtain ⟨d, hd, hid⟩ := h.dcLink p hp
+      exact ⟨d, by rw [List.getElem?_append_left (h.dcIdx p hp)]; exact hd, hid⟩
+    · simp at hp; subst hp
+      exact ⟨c, by simp, hc⟩
+  · intro d hd hr
+    rcases List.mem_append.mp hd with hd | hd
+    · exact h.openId d hd hr
+    · simp at hd; subst hd; exact Or.inr (by rw [hc]; rfl)
 
-/-- `_data_channel_receive`. -/
+/-- `_data_channel_receive`, with the `datachannel` / `open` / `message` handlers of the application. -/
 theorem wp_dcReceive {A} {sid ppid : Nat} {data : Bytes} {Q : Unit → St → Prop} {e : Ep} {l : List Out}
-    (h : WF U e) (hs : sid < 65536)
-    (hq : ∀ e' l', WF U e' → DataFrame e e' → Q () (e', l')) : wp A (dcReceive sid ppid data) Q (e, l) := by
-  have h0 : WF U e := h
-  have hdone : ∀ l', Q () (e, l') := fun l' => hq e l' h0 (DataFrame.refl _)
+    (h : WFx B e) (hs : sid < 65536)
+    (hq : ∀ e' l', WFx B e' → DFrame e e' → Q () (e', l')) : wp A (dcReceive sid ppid data) Q (e, l) := by
+  have hdone : ∀ l', Q () (e, l') := fun l' => hq e l' h (DFrame.refl _)
   unfold dcReceive
   simp only [wp_bind, wp_getE]
   split
@@ -90,42 +102,57 @@ theorem wp_dcReceive {A} {sid ppid : Nat} {data : Bytes} {Q : Unit → St → Pr
         · simp only [wp_bind, wp_setE]
           have hnone' : dictGet e.dataChannels sid = none := by
             cases hd : dictGet e.dataChannels sid <;> simp_all
-          refine wp_flush ⟨h.net, h.ch.open hnone' hs rfl _, h.tx, h.rx, h.rcReq, h.rcResp, h.sack,
-            h.ids, h.cap, h.tm1, h.tm2, h.tasks, h.rcr⟩ ?_
+          refine wp_flush (h.map (fun U h => ⟨h.net, h.ch.open hnone' hs rfl _, h.tx, h.rx, h.rcReq, h.rcResp,
+            h.sack, h.ids, h.cap, h.tm1, h.tm2, h.tasks, h.rcr⟩) rfl) ?_
           intro e1 l1 hw1 hf1
-          obtain ⟨cs, dcs, q, tx, _, _, _, _, rfl, hlen⟩ := hf1
+          have hf0 : DFrame e e1 := by
+            obtain ⟨_, _, _, _, _, _, _, _, _, _, rfl, hlen⟩ := hf1
+            exact ⟨_, _, _, _, _, _, _, _, _, _, rfl, by simp at hlen; omega⟩
+          have hi : e.chans.length < e1.chans.length := by
+            obtain ⟨_, _, _, _, _, _, _, _, _, _, rfl, hlen⟩ := hf1
+            simp at hlen; exact hlen
           simp only [wp_getE]
           split
-          · simp only [wp_bind, wp_emit]
-            have hi : e.chans.length < cs.length := by simp at hlen; omega
+          · simp only [wp_bind]
             obtain ⟨c, hc⟩ := getElem?_of_lt hi
-            rw [wp_chanGet (c := c) (by simpa using hc)]
-            simp only [wp_chanSet]
-            refine hq _ _ (hw1.setChan (c := c) (by simpa using hc) ⟨rfl, rfl, rfl⟩) ?_
-            exact ⟨_, dcs, q, tx, _, _, _, _, rfl, by simp; omega⟩
+            rw [wp_chanGet (c := c) hc]
+            obtain ⟨U, hb, hw1⟩ := hw1
+            have hw2 := hw1.setChan (c := c) (c' := { c with silent := false }) hc ⟨rfl, rfl, rfl⟩ (fun h' => Or.inl h')
+            simp only [wp_chanSet, wp_emit]
+            refine wp_react hw2 hb (by simpa using hi) ?_
+            intro e2 l2 hw3 hf3
+            exact hq e2 l2 hw3 (hf0.trans ((RFrame.trans ⟨_, _, _, _, rfl, by simp⟩ hf3).toD))
           · simp only [wp_pure]
-            exact hq _ _ hw1 ⟨cs, dcs, q, tx, _, _, _, _, rfl, by simp at hlen; omega⟩
+            exact hq _ _ hw1 hf0
     · split
       · split
         · simpa using hdone l
         · rename_i i hsome
-          have hi := h.ch.dcIdx _ (dictGet_mem hsome)
+          obtain ⟨U, hb, hw⟩ := id h
+          have hi := hw.ch.dcIdx _ (dictGet_mem hsome)
           obtain ⟨c, hc⟩ := getElem?_of_lt hi
+          obtain ⟨d, hd, hdid⟩ := hw.ch.dcLink _ (dictGet_mem hsome)
           simp only [wp_bind, wp_chanGet hc]
           split
-          · refine wp_setReady h0 hi ?_
-            intro cs l' hw hlen
-            exact hq _ _ hw ⟨cs, _, _, _, _, _, _, _, rfl, by omega⟩
+          · refine wp_setReady h hi ?_ ?_
+            · intro _ c' hc'
+              rw [hd] at hc'; cases hc'
+              exact Or.inr (by rw [hdid]; rfl)
+            · intro e' l' hw' hf
+              exact hq _ _ hw' hf.toD
           · simpa using hdone l
       · simpa using hdone l
   · split
     · simpa using hdone l
     · rename_i i hsome
-      have hi := h.ch.dcIdx _ (dictGet_mem hsome)
+      obtain ⟨U, hb, hw⟩ := id h
+      have hi := hw.ch.dcIdx _ (dictGet_mem hsome)
       obtain ⟨c, hc⟩ := getElem?_of_lt hi
+      have hre : ∀ l', wp A (react 3 i) Q (e, l') := fun l' =>
+        wp_react hw hb hi (fun e' l'' hw' hf => hq e' l'' hw' hf.toD)
       simp only [wp_bind, wp_chanGet hc]
       repeat' split
-      all_goals first | simpa using hdone _ | (simp only [wp_emit]; exact hdone _)
+      all_goals first | simpa using hdone _ | (simp only [wp_bind, wp_emit]; exact hre _)
 
 /-! ## delivery of reassembled messages -/
 
@@ -137,14 +164,36 @@ theorem WF.rxFields {e : Ep} (h : WF U e) (rwnd : Int) (ins : List (Nat × InStr
 theorem WF.setIns {e : Ep} (h : WF U e) (ins : List (Nat × InStream)) : WF U { e with inStreams := ins } :=
   ⟨h.net, h.ch, h.tx, h.rx, h.rcReq, h.rcResp, h.sack, h.ids, h.cap, h.tm1, h.tm2, h.tasks, h.rcr⟩
 
+theorem WF.setRx {e : Ep} (h : WF U e) {r : Rx} (hr : RxR r) (b : Bool) :
+    WF U { e with rx := some r, sackNeeded := b } :=
+  ⟨h.net, h.ch, h.tx, ⟨by intro r' hr'; cases hr'; exact hr⟩, h.rcReq, h.rcResp, fun _ => rfl, h.ids, h.cap, h.tm1, h.tm2, h.tasks, h.rcr⟩
+
+theorem WF.rxR {e : Ep} (h : WF U e) {r : Rx} (hr : e.rx = some r) : RxR r := h.rx.rng r hr
+
+
+theorem WFx.rxFields {e : Ep} (h : WFx B e) (rwnd : Int) (ins : List (Nat × InStream)) :
+    WFx B { e with rwnd := rwnd, inStreams := ins } := h.map (fun _ hw => hw.rxFields _ _) rfl
+
+theorem WFx.setIns {e : Ep} (h : WFx B e) (ins : List (Nat × InStream)) : WFx B { e with inStreams := ins } :=
+  h.map (fun _ hw => hw.setIns _) rfl
+
+theorem WFx.setRx {e : Ep} (h : WFx B e) {r : Rx} (hr : RxR r) (b : Bool) :
+    WFx B { e with rx := some r, sackNeeded := b } := h.map (fun _ hw => hw.setRx hr b) rfl
+
+theorem WFx.rxR {e : Ep} (h : WFx B e) {r : Rx} (hr : e.rx = some r) : RxR r := by
+  obtain ⟨U, _, hw⟩ := h; exact hw.rxR hr
+
+theorem WFx.sack {e : Ep} (h : WFx B e) (hs : e.sackNeeded = true) : e.rx.isSome := by
+  obtain ⟨U, _, hw⟩ := h; exact hw.sack hs
+
 /-- `for message in …: self._advertised_rwnd += len(message[2]); await self._receive(*message)`. -/
-theorem wp_deliver {A} {msgs : List Msg} {Q : Unit → St → Prop} {e : Ep} {l : List Out} (h : WF U e)
+theorem wp_deliver {A} {msgs : List Msg} {Q : Unit → St → Prop} {e : Ep} {l : List Out} (h : WFx B e)
     (ha : Acc (msgsBytes msgs) e.rwnd e.inStreams) (hs : ∀ m ∈ msgs, m.sid < 65536)
-    (hq : ∀ e' l', WF U e' → Acc 0 e'.rwnd e'.inStreams → e'.inStreams = e.inStreams → Q () (e', l')) :
+    (hq : ∀ e' l', WFx B e' → Acc 0 e'.rwnd e'.inStreams → e'.inStreams = e.inStreams → Q () (e', l')) :
     wp A (deliver msgs) Q (e, l) := by
   unfold deliver
   rw [wp_bind]
-  refine wp_forIn A msgs _ _ (fun suf s' => WF U s'.1 ∧ Acc (msgsBytes suf) s'.1.rwnd s'.1.inStreams ∧
+  refine wp_forIn A msgs _ _ (fun suf s' => WFx B s'.1 ∧ Acc (msgsBytes suf) s'.1.rwnd s'.1.inStreams ∧
     (∀ m ∈ suf, m.sid < 65536) ∧ s'.1.inStreams = e.inStreams) (e, l) ⟨h, ha, hs, rfl⟩ ?_ ?_
   · intro m rest s' ⟨hw, hacc, hsid, hins⟩
     obtain ⟨e1, l1⟩ := s'
@@ -153,8 +202,10 @@ theorem wp_deliver {A} {msgs : List Msg} {Q : Unit → St → Prop} {e : Ep} {l 
     refine wp_dcReceive (hw.rxFields _ _) (hsid m (by simp)) ?_
     intro e2 l2 hw2 hf2
     simp only [wp_pure, true_and]
-    obtain ⟨cs, dcs, q, tx, _, _, _, _, rfl, hlen⟩ := hf2
-    refine ⟨hw2, ?_, fun x hx => hsid x (by simp [hx]), hins⟩
+    have hr2 := hf2.rwnd
+    have hi2 := hf2.ins
+    refine ⟨hw2, ?_, fun x hx => hsid x (by simp [hx]), by rw [hi2]; exact hins⟩
+    rw [hr2, hi2]
     refine ⟨?_, h2⟩
     simp only [msgsBytes, List.map_cons, List.sum_cons] at h1 ⊢
     try dsimp only at h1 ⊢
@@ -164,23 +215,17 @@ theorem wp_deliver {A} {msgs : List Msg} {Q : Unit → St → Prop} {e : Ep} {l 
     have : Acc 0 s'.1.rwnd s'.1.inStreams := by simpa [msgsBytes] using hacc
     exact hq s'.1 s'.2 hw this hins
 
-theorem WF.setRx {e : Ep} (h : WF U e) {r : Rx} (hr : RxR r) (b : Bool) :
-    WF U { e with rx := some r, sackNeeded := b } :=
-  ⟨h.net, h.ch, h.tx, ⟨by intro r' hr'; cases hr'; exact hr⟩, h.rcReq, h.rcResp, fun _ => rfl, h.ids, h.cap, h.tm1, h.tm2, h.tasks, h.rcr⟩
-
-theorem WF.rxR {e : Ep} (h : WF U e) {r : Rx} (hr : e.rx = some r) : RxR r := h.rx.rng r hr
-
 /-- `_receive_data_chunk` (after the C05a fix no exception is left); consumes `c.data.length` bytes of slack. -/
 theorem wp_receiveData {A} {c : RChunk} {Q : Unit → St → Prop} {e : Ep} {l : List Out}
-    (h : WF U e)
+    (h : WFx B e)
     (hrx : e.rx.isSome = true) (ha : Acc 0 e.rwnd e.inStreams) (hso : SidOk e.inStreams)
     (hc : InRange32 c.tsn) (hsid : c.sid < 65536)
-    (hq : ∀ e' l', WF U e' → Acc 0 e'.rwnd e'.inStreams → SidOk e'.inStreams → Q () (e', l')) :
+    (hq : ∀ e' l', WFx B e' → Acc 0 e'.rwnd e'.inStreams → SidOk e'.inStreams → Q () (e', l')) :
     wp A (receiveData c) Q (e, l) := by
   obtain ⟨r, hr⟩ := Option.isSome_iff_exists.mp hrx
   unfold receiveData
   simp only [wp_bind, wp_modE, wp_getE, hr, wp_pure, wp_setE]
-  have hw1 : WF U { e with sackNeeded := true, rx := some (markReceived r c.tsn).2 } :=
+  have hw1 : WFx B { e with sackNeeded := true, rx := some (markReceived r c.tsn).2 } :=
     (h.setRx (markReceived_range (h.rxR hr) hc) true)
   have ha1 : Acc 0 e.rwnd e.inStreams := ha
   split
@@ -222,10 +267,10 @@ theorem WF.sackTrue {e : Ep} (h : WF U e) (hrx : e.rx.isSome = true) : WF U { e 
 
 /-- `_receive_forward_tsn_chunk`. -/
 theorem wp_receiveForwardTsn {A} {cum : Int} {streams : List (Nat × Nat)} {Q : Unit → St → Prop} {e : Ep}
-    {l : List Out} (h : WF U e) (hrx : e.rx.isSome = true) (ha : Acc 0 e.rwnd e.inStreams)
+    {l : List Out} (h : WFx B e) (hrx : e.rx.isSome = true) (ha : Acc 0 e.rwnd e.inStreams)
     (hso : SidOk e.inStreams)
     (hc : InRange32 cum) (hsid : ∀ p ∈ streams, p.1 < 65536)
-    (hq : ∀ e' l', WF U e' → Acc 0 e'.rwnd e'.inStreams → SidOk e'.inStreams → Q () (e', l')) :
+    (hq : ∀ e' l', WFx B e' → Acc 0 e'.rwnd e'.inStreams → SidOk e'.inStreams → Q () (e', l')) :
     wp A (receiveForwardTsn cum streams) Q (e, l) := by
   obtain ⟨r, hr⟩ := Option.isSome_iff_exists.mp hrx
   have hrr := h.rxR hr
@@ -246,7 +291,7 @@ theorem wp_receiveForwardTsn {A} {cum : Int} {streams : List (Nat × Nat)} {Q : 
        fun x hx => hrr.2.2 x (List.mem_filter.mp hx).1⟩
     have hw1 := h.setRx hr' true
     -- first loop: prune
-    refine wp_forIn A e.inStreams _ _ (fun suf s' => WF U s'.1 ∧ Acc 0 s'.1.rwnd s'.1.inStreams ∧
+    refine wp_forIn A e.inStreams _ _ (fun suf s' => WFx B s'.1 ∧ Acc 0 s'.1.rwnd s'.1.inStreams ∧
       SidOk s'.1.inStreams ∧ (∀ p ∈ suf, dictGet s'.1.inStreams p.1 = some p.2) ∧ (suf.map (·.1)).Nodup) _
       ⟨hw1, ha, hso, fun p hp => dictGet_of_mem_nodup ha.keys hp, ha.keys⟩ ?_ ?_
     · intro ⟨sid, s⟩ rest ⟨e1, l1⟩ ⟨hw, hacc, hsok, hget, hnd⟩
@@ -267,7 +312,7 @@ theorem wp_receiveForwardTsn {A} {cum : Int} {streams : List (Nat × Nat)} {Q : 
         exact hget p (by simp [hp])
     · intro ⟨e1, l1⟩ ⟨hw, hacc, hsok, _, _⟩
       -- second loop: advance the streams and deliver
-      refine wp_forIn A streams _ _ (fun suf s' => WF U s'.1 ∧ Acc 0 s'.1.rwnd s'.1.inStreams ∧
+      refine wp_forIn A streams _ _ (fun suf s' => WFx B s'.1 ∧ Acc 0 s'.1.rwnd s'.1.inStreams ∧
         SidOk s'.1.inStreams ∧ (∀ p ∈ suf, p.1 < 65536)) _ ⟨hw, hacc, hsok, hsid⟩ ?_ ?_
       · intro ⟨sid, sseq⟩ rest ⟨e2, l2⟩ ⟨hw2, hacc2, hsok2, hsid2⟩
         simp only [wp_bind]
@@ -297,42 +342,45 @@ theorem wp_receiveForwardTsn {A} {cum : Int} {streams : List (Nat × Nat)} {Q : 
 
 /-- `_receive_sack_chunk`. -/
 theorem wp_receiveSack {A} {cum : Nat} {gaps : List (Nat × Nat)} {Q : Unit → St → Prop} {e : Ep} {l : List Out}
-    (h : WF U e) (hq : ∀ e' l', WF U e' → DataFrame e e' → Q () (e', l')) :
+    (h : WFx B e) (hq : ∀ e' l', WFx B e' → DFrame e e' → Q () (e', l')) :
     wp A (receiveSack cum gaps) Q (e, l) := by
   unfold receiveSack
   simp only [wp_bind, wp_getE]
   split
-  · simpa using hq e l h (DataFrame.refl _)
-  · obtain ⟨r, hr, hok⟩ := Tx.receiveSack_ok e.tx h.tx cum gaps (1000 * e.now)
+  · simpa using hq e l h (DFrame.refl _)
+  · obtain ⟨U, hb, hw⟩ := id h
+    obtain ⟨r, hr, hok⟩ := Tx.receiveSack_ok e.tx hw.tx cum gaps (1000 * e.now)
     simp only [wp_bind, wp_pure, ite_self, hr, wp_liftO_ok]
     cases r with
-    | none => simpa using hq e l h (DataFrame.refl _)
+    | none => simpa using hq e l h (DFrame.refl _)
     | some p =>
       obtain ⟨tx, evs⟩ := p
       obtain ⟨htx, hev⟩ := hok tx evs rfl
       simp only [wp_bind, wp_setE]
-      have hw1 : WF U { e with tx := tx } := h.setTx htx
+      have hw1 : WF U { e with tx := tx } := hw.setTx htx
       refine wp_playTx hw1 hev ?_
       intro l1
-      refine wp_flush hw1 ?_
+      refine wp_flush ⟨U, hb, hw1⟩ ?_
       intro e2 l2 hw2 hf2
+      obtain ⟨U2, hb2, hw2⟩ := hw2
       refine wp_transmit hw2 ?_
       intro tx3 l3 hw3
-      refine hq _ _ hw3 ?_
-      obtain ⟨cs, dcs, q, tx2, _, _, _, _, rfl, hlen⟩ := hf2
-      exact ⟨cs, dcs, q, tx3, _, _, _, _, rfl, hlen⟩
+      refine hq _ _ ⟨U2, hb2, hw3⟩ ?_
+      exact (DFrame.trans ⟨_, _, _, tx, _, _, _, _, _, _, rfl, Nat.le_refl _⟩ hf2).trans
+        ⟨_, _, _, tx3, _, _, _, _, _, _, rfl, Nat.le_refl _⟩
 
 /-- `_send_sack()`. -/
-theorem wp_sendSack {A} {Q : Unit → St → Prop} {e : Ep} {l : List Out} (h : WF U e) (hrx : e.rx.isSome = true)
+theorem wp_sendSack {A} {Q : Unit → St → Prop} {e : Ep} {l : List Out} (h : WFx B e) (hrx : e.rx.isSome = true)
     (ha : Acc 0 e.rwnd e.inStreams)
-    (hq : ∀ r l', WF U { e with rx := some r, sackNeeded := false } →
+    (hq : ∀ r l', WFx B { e with rx := some r, sackNeeded := false } →
       Q () ({ e with rx := some r, sackNeeded := false }, l')) : wp A sendSack Q (e, l) := by
   obtain ⟨r, hr⟩ := Option.isSome_iff_exists.mp hrx
   have hrr := h.rxR hr
   have hrw : e.rwnd ≤ 1048576 := by have := ha.acc; omega
   unfold sendSack
   simp only [wp_bind, wp_getE, hr, wp_pure]
-  refine wp_sendChunk h (sack_inRange hrr hrw) ?_
+  obtain ⟨U, hb, hw⟩ := id h
+  refine wp_sendChunk hw (sack_inRange hrr hrw) ?_
   intro d
   simp only [wp_modE]
   exact hq _ _ (h.setRx (r := { r with dups := [] }) ⟨hrr.1, hrr.2.1, by simp⟩ false)
